@@ -557,6 +557,46 @@ def alias_scenario(rng) -> List[Unit]:
     return units
 
 
+def wrap_scenario(rng) -> List[Unit]:
+    """a class re-exported by a SIBLING module (`api`: from-import + __all__) while a third module derives from it
+    through the defining module's name; the subclass body holds statements whose meaning depends on the base being
+    KNOWN while the body is visited: `meth = deco(Base.meth)` (a wrapped inherited method, not a new attribute),
+    and, in the zope flavour, `class ISub(IBase)` (interface or plain class), a schema field made from a moved field
+    class, an interface made by calling a moved InterfaceClass subclass"""
+    pk = rng.choice(["wp", "lib"])
+    impl = rng.choice(["_impl", "impl", "zimpl"])
+    api = rng.choice(["api", "aapi", "zapi"])
+    user = rng.choice(["user", "auser", "zuser"])
+    zope = rng.random() < 0.4
+    src_from = rng.choice(["definer", "definer", "reexporter"])
+    if zope:
+        implsrc = ["from zope.interface import Interface", "from zope.interface.interface import InterfaceClass", "from zope import schema",
+                   "class IBase(Interface):", "    def meth(a):", "        'meth doc'",
+                   "class MyIC(InterfaceClass):", "    pass", "class MyField(schema.Field):", "    pass"]
+        names = ["IBase", "MyIC", "MyField"]
+        moved = rng.sample(names, rng.randint(1, 3))
+        usersrc = ["from .%s import %s" % (impl if src_from == "definer" else api, ", ".join(names)),
+                   "class ISub(IBase):", "    f = MyField()", "IDyn = MyIC('IDyn')"]
+    else:
+        implsrc = ["class X:", "    def meth(self):", "        'meth doc'", "    attr = 1", "def deco(f):", "    return f"]
+        moved = ["X"]
+        form = rng.choice(["from", "from", "module"])
+        if form == "from":
+            usersrc = ["from .%s import X" % (impl if src_from == "definer" else api), "from .%s import deco" % impl]
+            bx = "X"
+        else:
+            usersrc = ["from . import %s as _m" % (impl if src_from == "definer" else api), "from .%s import deco" % impl]
+            bx = "_m.X"
+        usersrc += ["class Y(%s):" % bx, "    meth = deco(%s.meth)" % bx, "    attr = deco(%s.attr)" % bx, "    other = deco(len)"]
+    apisrc = ["from .%s import %s" % (impl, ", ".join(moved)), "__all__ = %r" % moved]
+    units = [Unit(pk, True, "", None), Unit("%s.%s" % (pk, impl), False, "\n".join(implsrc) + "\n", pk),
+             Unit("%s.%s" % (pk, api), False, "\n".join(apisrc) + "\n", pk),
+             Unit("%s.%s" % (pk, user), False, "\n".join(usersrc) + "\n", pk)]
+    tail = units[1:]
+    rng.shuffle(tail)
+    return [units[0]] + tail
+
+
 def run(ctx: Ctx) -> None:
     from .c07 import gen_project as reexport_project
     nproj = 200 if ctx.quick else 2500
@@ -577,6 +617,9 @@ def run(ctx: Ctx) -> None:
         elif i % 16 == 2:
             units = alias_scenario(ctx.rng)
             ctx.count("projects:assignment-alias-scenario")
+        elif i % 16 in (10, 12):
+            units = wrap_scenario(ctx.rng)
+            ctx.count("projects:base-known-at-visit-scenario")
         else:
             g = Gen(ctx.rng, Knobs(max_modules=5 if ctx.quick else 7, reexport=0.3, star=0.25, single_reexporter=True))
             units = g.project()
